@@ -96,6 +96,54 @@ func (h *HolderLowerChain) Check(nameOf func(any) string) []string {
 	return out
 }
 
+// Function-local types: two distinct types that share package path AND name ("base"), one without
+// any settable field and one with tagged fields (a trap for caches keyed by type name).
+type localEmpty struct {
+	Own string
+	ok  func() (string, int)
+}
+
+func (h *localEmpty) Check(nameOf func(any) string) []string { return nil }
+
+type localFull struct {
+	get func() (string, string, any)
+}
+
+func (h *localFull) Check(nameOf func(any) string) []string { return nil }
+
+// NewLocalTypeFixtures returns two holders (of function-local types embedding function-local types
+// both named "base") and a checker.
+func NewLocalTypeFixtures() (first any, second any, check func(nameOf func(any) string) []string) {
+	mk1 := func() any {
+		type base struct {
+			x int //nolint:unused
+			y string
+		}
+		type HolderLocal1 struct {
+			base
+			Own string `value:"own1"`
+		}
+		return &HolderLocal1{}
+	}
+	type base struct {
+		V string `value:"hello"`
+		D IA     `wire:"pab"`
+	}
+	type HolderLocal2 struct {
+		base
+		Own string `value:"own2"`
+	}
+	h2 := &HolderLocal2{}
+	h1 := mk1()
+	return h1, h2, func(nameOf func(any) string) []string {
+		var out []string
+		if h2.V != "hello" || h2.D == nil || nameOf(h2.D) != "pab" || h2.Own != "own2" {
+			out = append(out, fmt.Sprintf("HolderLocal2 (embeds a function-local type named base): V=%q D=%q Own=%q", h2.V, nameOf(h2.D), h2.Own))
+		}
+		return out
+	}
+}
+
 // NewEmbedFixtures returns fresh fixture holders with sentinels in the fields the container must not touch.
 func NewEmbedFixtures() []EmbedFixture {
 	a := &HolderFlat{u: 777, N: "SENTINEL"}
